@@ -186,7 +186,6 @@ def valueAt : J → List Step → Option J
   | .obj kvs, .name k :: rest => (dictGet kvs k).bind (valueAt · rest)
   | .arr xs, .index n :: rest => (xs[n]?).bind (valueAt · rest)
   | _, _ => none
-termination_by _ ps => ps.length
 
 /-- The reference token of a step. -/
 def stepToken : Step → Str
@@ -237,6 +236,13 @@ def isExtensionToken (t : Str) : Bool :=
     match parseIndexToken t with
     | some i => i < 0 || i > maxIntIndex
     | none => false
+
+/-- Side condition on locations: an integer-like member name or an array index must lie
+    within the pointer index limits (`JSONPointer.min_int_index/max_int_index`); names that
+    are canonical integers beyond the limit are rejected by the constructor (known finding). -/
+def StepInRange : Step → Prop
+  | .name k => ∀ i, parseIndexToken k = some i → minIntIndex ≤ i ∧ i ≤ maxIntIndex
+  | .index n => (n : Int) ≤ maxIntIndex
 
 end Pointer
 end JP
